@@ -45,12 +45,12 @@ if os.path.exists(p):
             if w:
                 sig = w.group(1).strip()
             if int(m.group(3)) in (0, 1):
-                det[cur][m.group(1)] = {"check": m.group(1), "tier": m.group(2), "exit": int(m.group(3)), "first_signature": sig}
+                det[cur][(m.group(1), m.group(2))] = {"check": m.group(1), "tier": m.group(2), "exit": int(m.group(3)), "first_signature": sig}
     det = {k: list(v.values()) for k, v in det.items()}
 
 os.makedirs(DST, exist_ok=True)
 index = []
-for rnd, prefix in ((1, "out-"), (2, "out2-"), (3, "out3-"), (4, "out4-"), (5, "out5-"), (6, "out6-")):
+for rnd, prefix in ((1, "out-"), (2, "out2-"), (3, "out3-"), (4, "out4-"), (5, "out5-"), (6, "out6-"), (7, "out7-")):
     for i in range(1, 19):
         pid = f"C{i:02d}"
         for v in "AB":
@@ -105,7 +105,7 @@ for rnd, prefix in ((1, "out-"), (2, "out2-"), (3, "out3-"), (4, "out4-"), (5, "
                 "not_detected_by": [x["check"] + " " + x["tier"] for x in detections if x["exit"] != 1],
             }
             json.dump(meta, open(os.path.join(dst, "meta.json"), "w"), indent=1)
-            index.append((sid, pid, [x["check"] for x in detections if x["exit"] == 1]))
+            index.append((sid, pid, [x["check"] + ("" if x["tier"] == "quick" else " (thorough)") for x in detections if x["exit"] == 1]))
 with open(os.path.join(DST, "INDEX.md"), "w") as f:
     f.write("# Seeded changes used to validate the monitors\n\nEach directory: patch.diff (source change), demo/ (demonstration that fails with the change and passes without), README.md (the author's description), meta.json (what was confirmed, what detects it).\n\n| id | property | detected by (quick tier unless noted) |\n|---|---|---|\n")
     for sid, pid, d in index:
